@@ -90,6 +90,14 @@ fn main() {
             sharded(n, move |s| re::run_spellings(seed, s, cases, per))
         }
         "c03-dots" => re::run_dot_enumeration(),
+        "c05-exhaustive" => {
+            let ns = n as u64;
+            sharded(n, move |s| vmon::c05::run_exhaustive(s, ns))
+        }
+        "c05-random" => {
+            let cases = if quick { 500 } else { 60_000 };
+            sharded(n, move |s| vmon::c05::run_random(seed, s, cases))
+        }
         _ => usage(),
     };
     // unexpected panics anywhere in the process are violations of whatever ran
